@@ -1,12 +1,19 @@
 """C14 - values prepared for writing respect format, range and step."""
 from __future__ import annotations
 
+import asyncio
 import base64
 import binascii
+import functools
 import json
 import math
 import os
+import pathlib
+import random
+import struct
 import tempfile
+import types
+import uuid
 from decimal import Decimal
 from fractions import Fraction
 
@@ -28,14 +35,26 @@ RULE = ("formats {bool,uint8,uint16,uint32,uint64,int,float} x (minValue,maxValu
         "(as the BLE transport does), add_service(add_required=True) and every characteristic of every fixture under tests/fixtures - crossed with every format (bool, integer formats, float, "
         "string, data, tlv8, none declared) and every input class (int, float, Decimal, numeric strings, bool, None, '', words, nan/inf, lists, dicts, tuples, bytes, complex, Fraction, objects; "
         "base64 / TLV8 well- and ill-formed text) through check_convert_value and single- and multi-item Service.build_update (each item against its own characteristic, addressed to it). "
-        "non-trivial = distinct (format class, which of min/max/step set, input kind, outcome class), for the typed streams also (kind of type, construction path, entry point)")
+        "stream wire / wire-multi: the declaration reaches the model over the wire - the harness is the accessory and encodes (format, unit, valid range, step) itself from the HAP-BLE "
+        "specification (little-endian, unsigned for uint8..uint64, two's complement for int, IEEE-754 single for float) into a HAP-BLE characteristic signature served by a radio stand-in "
+        "(a bleak backend under the real AIOHomeKitBleakClient; real BlePairing GATT database fetch) and into the attribute database of a HAP-over-CoAP accessory (real CoAPPairing."
+        "list_accessories_and_characteristics, real pair-verify against the reference accessory, only aiocoap's Context replaced), each also after a restart from a real characteristic cache "
+        "file; every wire format, ranges with negative minima down to -2^31, entirely below zero, in the upper half of the unsigned formats, range without step / step without range / neither, "
+        "fractional steps, declarations that replace a non-zero table default by zero, inputs inside the declared range, on its ties and equal to the accessory's current value; "
+        "the oracle's reference is the declaration the harness encoded, never what the library decoded. "
+        "non-trivial = distinct (format class, which of min/max/step set, input kind, outcome class), for the typed and wire streams also (kind of type, construction path, entry point)")
 TRUSTED = ["decimal.Decimal constructor is exact; fractions.Fraction as the exact-arithmetic oracle",
            "typed streams: the declared parameters of a characteristic are the harness's own bookkeeping - the declaration, else the default the table of standard types (read as data) gives for the type; "
-           "base64 text validity as read by the stdlib's base64.decodebytes, TLV8 well-formedness by the harness's own item walk"]
+           "base64 text validity as read by the stdlib's base64.decodebytes, TLV8 well-formedness by the harness's own item walk",
+           "wire stream: the harness's own encoder of the HAP-BLE characteristic signature / CoAP attribute database (TLV8 items, GATT presentation format, valid range and step descriptors), "
+           "the stdlib's struct for IEEE-754 singles, bleak's GATT table classes, harness/refacc.py as the pair-verify peer"]
 ASSUMPTIONS = ["integer formats: the default 28-digit context is exact on the domain of 64-bit formats (validated by the correspondence up to 2^64, not proved)",
                "float format: the result is compared as the nearest double of the model's rational",
                "data / tlv8 / string / undeclared formats are outside the property's quantifier: for them only the last clause is checked (text that is not base64 / not well-formed TLV8 fails with FormatError, "
                "well-formed text is not rejected, nothing but FormatError is raised for str inputs); non-string inputs to data / tlv8 and format names the conversion does not know (the table's 'int32') are counted, not judged",
+               "wire stream: a float range / step is an IEEE-754 single on the wire - the declared value is exactly that single (not the decimal the generator started from); a step of 0 and a "
+               "valid range without a presentation format have no reading on the wire and are not generated; data and tlv8 share one wire format (only data is generated); the Identify and service "
+               "signature types have a transport role of their own in the BLE code and are not used as the characteristic under test; the BLE signature reads precede pair-verify as in the library",
                "tie direction for a value BELOW the offset (only possible when no minValue is declared and the value is negative) is away from zero; the property's 'ties upward' is checked for values at or above the declared minimum"]
 EXPLANATION = "Lean theorems C14_* over the exact-rational model (grid membership, nearest with ties upward, range, integrality, the six-digit float path with its error bound); differential tie through Service.build_update / check_convert_value with exact rationals"
 
@@ -244,6 +263,10 @@ def run(ctx: Ctx, driver: Driver):
     compare_with_model(ctx, "num-float", fcases, fouts, flines, driver, canon=canon_float)
     bool_stream(ctx, driver, c)
     kinds_stream(ctx, driver)
+    wire_stream(ctx, driver)
+    # the BLE signature-metadata route against its Lean model (theorems C14_ble_*)
+    from harness.c14_blemeta import run_blemeta
+    run_blemeta(ctx, driver)
 
 
 def canon_float(s):
@@ -435,6 +458,8 @@ def build(spec):
     from aiohomekit.model.characteristics import Characteristic
 
     path = spec["path"]
+    if path in WIRE_PATHS:
+        return build_wire(spec)
     if path in ("from_dict", "from_list", "from_file", "reserialised"):
         d = acc_dict(spec)
         if path == "from_dict":
@@ -472,6 +497,536 @@ def build(spec):
             hc = svc.add_char(ch["type"], **kw) if path == "add_char" else Characteristic(svc, ch["type"], **kw)
         chars.append(hc)
     return svc, chars
+
+
+# ======================================================================================================================
+# the declaration reaches the model over the wire (streams wire / wire-multi)
+# ======================================================================================================================
+# Besides the JSON dictionary of an IP accessory, the library learns (format, minValue, maxValue, minStep) of a
+# characteristic from a HAP-BLE characteristic signature (BlePairing._async_fetch_gatt_database, decoded by
+# controller/ble/structs.py) and from the attribute database of a HAP-over-CoAP (Thread) accessory
+# (CoAPPairing.list_accessories_and_characteristics, decoded by controller/coap/structs.py), and it writes what it learnt
+# to the characteristic cache and reads it back after a restart.  Here the HARNESS is the accessory: it encodes its
+# declaration itself from the HAP-BLE specification (GATT presentation format descriptor: format byte, exponent, unit;
+# valid range descriptor: lower and upper end, little-endian, in the characteristic's own format - unsigned for
+# uint8..uint64, two's complement for int, IEEE-754 single for float; step value descriptor likewise) and serves it
+# through a stand-in for the radio (a bleak backend under the real AIOHomeKitBleakClient) / the UDP socket (aiocoap's
+# Context under the real CoAPPairing, pair-verify answered by the reference accessory).  The reference of the oracle is
+# the declaration the harness ENCODED, never what the library decoded.
+WIRE_PATHS = ("ble_gatt", "ble_gatt_cached", "coap_db", "coap_db_cached")
+WIRE_FORMATS = ("bool",) + NUM_FORMATS + ("string", "data")
+WIRE_FMT = {"bool": 0x01, "uint8": 0x04, "uint16": 0x06, "uint32": 0x08, "uint64": 0x0A, "int": 0x10, "float": 0x14, "string": 0x19, "data": 0x1B}
+WIRE_UNIT = {"celsius": 0x272F, "arcdegrees": 0x2763, "percentage": 0x27AD, "lux": 0x2731, "seconds": 0x2703}
+WIRE_INT = {"uint8": (1, False), "uint16": (2, False), "uint32": (4, False), "uint64": (8, False), "int": (4, True)}
+WIRE_PERM = {"pr": 0x0010, "pw": 0x0020, "ev": 0x0080, "aa": 0x0004, "tw": 0x0008, "hd": 0x0040}
+HAP_SVC_INSTANCE_ID = "E604E95D-A759-4817-87D3-AA005083A0D1"   # HAP-BLE: the service instance id characteristic of every service
+HAP_CHAR_IID_DESCRIPTOR = "DC46F0FE-81D2-4616-B5D9-6ABDD796939A"  # HAP-BLE: the characteristic instance id descriptor
+SVC_SIGNATURE_TYPE = "000000A5" + BASE_UUID
+# types with a transport role of their own: Identify (the BLE code presents it as bool whatever the signature says, a documented
+# workaround) and the service signature characteristic (answers service signature reads)
+WIRE_EXCLUDED = ("00000014" + BASE_UUID, SVC_SIGNATURE_TYPE)
+
+
+def f32(x):
+    """the IEEE-754 single nearest to x, as the double that holds it exactly (what a float range / step is on the wire)"""
+    return struct.unpack("<f", struct.pack("<f", x))[0]
+
+
+def t8(tag, val):
+    """one TLV8 item, values longer than 255 bytes continued in items of the same tag"""
+    val = bytes(val)
+    if not val:
+        return bytes([tag, 0])
+    return b"".join(bytes([tag, len(val[o:o + 255])]) + val[o:o + 255] for o in range(0, len(val), 255))
+
+
+def wire_num(fmt, x):
+    """a value of the characteristic's format as the valid range / step descriptors carry it"""
+    if fmt == "float":
+        return struct.pack("<f", x)
+    n, signed = WIRE_INT[fmt]
+    return int(x).to_bytes(n, "little", signed=signed)
+
+
+def wire_type(canon, full):
+    """a type on the wire: the 128-bit UUID little-endian, or (CoAP, Apple-defined types) just the bytes of the short form"""
+    if canon.endswith(BASE_UUID) and not full:
+        n = int(canon[:8], 16)
+        return n.to_bytes(max(1, (n.bit_length() + 7) // 8), "little")
+    return uuid.UUID(canon).bytes[::-1]
+
+
+def wire_char(ch, transport, siid=None, stype=None):
+    """the TLV8 description of one characteristic: a HAP-BLE signature read response body / one entry of the CoAP database"""
+    canon = canon_uuid(ch["type"])
+    body = t8(0x04, wire_type(canon, transport == "ble" or ch.get("full_type", False))) + t8(0x05, struct.pack("<H", ch["iid"]))
+    if transport == "ble":
+        body += t8(0x07, struct.pack("<H", siid)) + t8(0x06, wire_type(canon_uuid(stype), True))
+    body += t8(0x0A, struct.pack("<H", sum(WIRE_PERM[p] for p in ch["perms"])))
+    if "description" in ch:
+        body += t8(0x0B, ch["description"].encode())
+    fmt = ch["fmt"]
+    if fmt != OMIT:
+        body += t8(0x0C, struct.pack("<BbHBH", WIRE_FMT[fmt], 0, WIRE_UNIT.get(ch.get("unit"), 0x2700), 1, 0))
+        if ch["min"] != OMIT:
+            body += t8(0x0D, wire_num(fmt, ch["min"]) + wire_num(fmt, ch["max"]))
+        if ch["step"] != OMIT:
+            body += t8(0x0E, wire_num(fmt, ch["step"]))
+    return body
+
+
+def wire_value(ch):
+    """the accessory's current value of the characteristic, as a read returns it"""
+    fmt = ch["fmt"]
+    if fmt == OMIT:
+        return b""
+    if fmt in NUM_FORMATS:
+        return wire_num(fmt, ch.get("cur", 0))
+    return {"bool": b"\x01", "string": b"acc", "data": b"\x01\x02"}[fmt]
+
+
+NAME_CHAR = {"type": "23", "perms": ["pr"], "fmt": "string", "min": OMIT, "max": OMIT, "step": OMIT}
+
+
+def _run_async(main):
+    """run one coroutine to completion on a loop of its own; whatever it left scheduled is cancelled"""
+    loop = asyncio.new_event_loop()
+    try:
+        return loop.run_until_complete(main(loop))
+    finally:
+        try:
+            left = [t for t in asyncio.all_tasks(loop) if not t.done()]
+            for t in left:
+                t.cancel()
+            if left:
+                loop.run_until_complete(asyncio.gather(*left, return_exceptions=True))
+        finally:
+            loop.close()
+
+
+def _cache_file():
+    fd, fn = tempfile.mkstemp(suffix=".json", prefix="c14_cache_")
+    os.close(fd)
+    os.unlink(fn)
+    return pathlib.Path(fn)
+
+
+def _controller(cache):
+    from unittest import mock
+
+    ctrl = mock.MagicMock()
+    ctrl._char_cache = cache
+    return ctrl
+
+
+@functools.lru_cache(maxsize=1)
+def _ble_kit():
+    """the radio: a bleak backend that serves a GATT table and answers HAP-BLE signature reads (nothing of aiohomekit in it)"""
+    import bleak  # noqa: F401 - before aiohomekit's BLE modules
+    from bleak.backends.characteristic import BleakGATTCharacteristic
+    from bleak.backends.client import BaseBleakClient
+    from bleak.backends.descriptor import BleakGATTDescriptor
+    from bleak.backends.service import BleakGATTService, BleakGATTServiceCollection
+
+    class Radio(BaseBleakClient):
+        def __init__(self, address, **kw):
+            super().__init__(address, **kw)
+            self.acc = kw["acc"]
+            self.up = False
+
+        mtu_size = 185
+        name = "acc"
+
+        @property
+        def is_connected(self):
+            return self.up
+
+        async def connect(self, pair, **kw):
+            self.up = True
+            self.services = self.acc.table()
+
+        async def disconnect(self):
+            self.up = False
+
+        async def pair(self, *a, **k):
+            pass
+
+        async def unpair(self):
+            pass
+
+        async def read_gatt_char(self, characteristic, **kw):
+            return bytearray(self.acc.read(characteristic.handle))
+
+        async def read_gatt_descriptor(self, descriptor, **kw):
+            return bytearray(self.acc.descs[descriptor.handle])
+
+        async def write_gatt_char(self, characteristic, data, response):
+            self.acc.write(characteristic.handle, bytes(data))
+
+        async def write_gatt_descriptor(self, descriptor, data):
+            pass
+
+        async def start_notify(self, *a, **k):
+            pass
+
+        async def stop_notify(self, *a, **k):
+            pass
+
+    class BleAccessory:
+        """GATT table of one HAP service: service instance id characteristic, optionally the service signature characteristic,
+        the characteristics of the spec with their instance id descriptors; HAP PDUs: characteristic / service signature read"""
+
+        def __init__(self, spec):
+            self.spec = spec
+            self.plain, self.descs, self.sigs, self.asked = {}, {}, {}, {}
+
+        def table(self):
+            spec = self.spec
+            col = BleakGATTServiceCollection()
+            h = 1
+            svc = BleakGATTService(None, h, canon_uuid(spec["stype"]).lower())
+            col.add_service(svc)
+            h += 1
+            col.add_characteristic(BleakGATTCharacteristic(None, h, HAP_SVC_INSTANCE_ID.lower(), ["read"], lambda: 20, svc))
+            self.plain[h] = struct.pack("<H", spec["siid"])
+            chars = list(spec["chars"])
+            if spec.get("svc_sig"):
+                chars.append({"type": SVC_SIGNATURE_TYPE, "iid": spec["siid"] + 44, "perms": ["pr"], "fmt": "data", "min": OMIT, "max": OMIT, "step": OMIT})
+            for ch in chars:
+                h += 1
+                gc = BleakGATTCharacteristic(None, h, canon_uuid(ch["type"]).lower(), ["read", "write"], lambda: 20, svc)
+                col.add_characteristic(gc)
+                self.sigs[h] = (ch["iid"], wire_char(ch, "ble", spec["siid"], spec["stype"]))
+                h += 1
+                col.add_descriptor(BleakGATTDescriptor(None, h, HAP_CHAR_IID_DESCRIPTOR.lower(), gc))
+                self.descs[h] = struct.pack("<H", ch["iid"])
+            return col
+
+        def write(self, h, data):
+            _control, opcode, tid, iid = struct.unpack("<BBBH", data[:5])
+            self.asked[h] = (opcode, tid, iid)
+
+        def read(self, h):
+            if h in self.plain:
+                return self.plain[h]
+            opcode, tid, iid = self.asked.pop(h)
+            own_iid, sig = self.sigs[h]
+            if opcode == 0x06 and iid == self.spec["siid"]:
+                sig = t8(0x0F, struct.pack("<H", 0x0001)) + t8(0x10, b"")  # service signature: primary service, no linked services
+            elif opcode != 0x01 or iid != own_iid:
+                return struct.pack("<BBB", 0x02, tid, 0x06)
+            return struct.pack("<BBBH", 0x02, tid, 0, len(sig)) + sig
+
+    return types.SimpleNamespace(Radio=Radio, BleAccessory=BleAccessory)
+
+
+def build_ble(spec, cached):
+    """real BlePairing + real AIOHomeKitBleakClient over the radio stand-in: the GATT database fetch builds the model; `cached`:
+    the model is written to a real characteristic cache file the way the pairing does after the fetch, and a new pairing
+    (a restart) loads it"""
+    kit = _ble_kit()
+    from aiohomekit.characteristic_cache import CharacteristicCacheFile
+    from aiohomekit.controller.ble.bleak import AIOHomeKitBleakClient
+    from aiohomekit.controller.ble.pairing import BlePairing
+    from aiohomekit.model import AccessoriesState
+
+    pd = {"AccessoryAddress": "AA:BB:CC:DD:EE:FF", "AccessoryPairingID": "aa:bb:cc:dd:ee:ff", "Connection": "BLE"}
+    fn = _cache_file()
+
+    async def main(loop):
+        pairing = BlePairing(_controller(CharacteristicCacheFile(fn)), pd)
+        client = AIOHomeKitBleakClient(pd["AccessoryAddress"], backend=kit.Radio, acc=kit.BleAccessory(spec))
+        await client.connect()
+        pairing.client = client
+        accessories = await pairing._async_fetch_gatt_database()
+        if not cached:
+            return accessories
+        pairing._accessories_state = AccessoriesState(accessories, 1, None)
+        pairing._update_accessories_state_cache()
+        return BlePairing(_controller(CharacteristicCacheFile(fn)), pd).accessories
+    try:
+        return _run_async(main)
+    finally:
+        if fn.exists():
+            fn.unlink()
+
+
+def coap_database(spec):
+    """the attribute database of the accessory as the TLV8 body of the CoAP database read: accessory information with a name, and
+    the service of the spec (every service holds a readable characteristic, as real ones do)"""
+    def svc(stype, siid, chars):
+        entries = [t8(0x13, wire_char(c, "coap")) for c in chars]
+        return t8(0x15, t8(0x07, struct.pack("<H", siid)) + t8(0x06, wire_type(canon_uuid(stype), False)) + t8(0x10, b"") + t8(0x14, b"\x00\x00".join(entries)))
+    info = svc("3E", 1, [dict(NAME_CHAR, iid=2)])
+    own = svc(spec["stype"], spec["siid"], list(spec["chars"]) + [dict(NAME_CHAR, iid=spec["siid"] + 45)])
+    return t8(0x18, t8(0x19, t8(0x1A, struct.pack("<H", spec["aid"])) + t8(0x16, info + b"\x00\x00" + own)))
+
+
+def build_coap(spec, cached):
+    """real CoAPPairing / CoAPHomeKitConnection / EncryptionContext; only aiocoap's Context is replaced.  Pair-verify is answered
+    by the reference accessory, the database read by coap_database(spec), value reads by the accessory's current values.
+    `cached`: a new pairing (a restart) loads what the first one wrote to a real characteristic cache file"""
+    from unittest import mock
+
+    from cryptography.hazmat.primitives.ciphers.aead import ChaCha20Poly1305
+    from harness import refacc
+
+    from aiohomekit.characteristic_cache import CharacteristicCacheFile
+    from aiohomekit.controller.coap import connection as coapc
+    from aiohomekit.controller.coap.pairing import CoAPPairing
+
+    rnd = random.Random(spec["siid"])
+
+    def rb(n):
+        return bytes(rnd.randrange(256) for _ in range(n))
+    ident = refacc.Identity(rb)
+    database = coap_database(spec)
+    values = {ch["iid"]: wire_value(ch) for ch in spec["chars"]}
+    values[2] = values[spec["siid"] + 45] = b"acc"
+    st = {"verify": None, "keys": None, "rx": 0, "tx": 0}
+
+    def nonce(c):
+        return struct.pack("=4xQ", c)
+
+    def pair_verify(payload):
+        d = refacc.untlv(payload)
+        if d.get(6) == b"\x01":
+            st["verify"] = refacc.VerifyAccessory(ident, rb(32))
+            return refacc.tlv(st["verify"].m2(d[3]))
+        va, st["verify"] = st["verify"], None
+        if va is None or not va.check_m3(list(d.items())):
+            return refacc.tlv([(6, b"\x04"), (7, b"\x02")])
+        st["keys"], st["rx"], st["tx"] = va.keys(), 0, 0
+        return refacc.tlv([(6, b"\x04")])
+
+    def secure(payload):
+        c2a, a2c, _evt = st["keys"]
+        plain = ChaCha20Poly1305(c2a).decrypt(nonce(st["rx"]), payload, b"")
+        st["rx"] += 1
+        out, off = b"", 0
+        while off + 7 <= len(plain):
+            _control, opcode, tid, iid, ln = struct.unpack("<BBBHH", plain[off:off + 7])
+            off += 7 + ln
+            status, body = 0, b""
+            if opcode == 0x09:
+                body = database
+            elif opcode == 0x03 and iid in values:
+                body = t8(0x01, values[iid]) if values[iid] else b""
+            else:
+                status = 4
+            out += struct.pack("<BBBH", 0x02, tid, status, len(body)) + body
+        enc = ChaCha20Poly1305(a2c).encrypt(nonce(st["tx"]), out, b"")
+        st["tx"] += 1
+        return enc
+
+    fn = _cache_file()
+
+    async def main(loop):
+        class Socket:
+            def request(self, msg):
+                fut = loop.create_future()
+                handler = pair_verify if "/".join(msg.opt.uri_path) == "2" else secure
+                fut.set_result(coapc.Message(code=coapc.Code.CHANGED, payload=handler(bytes(msg.payload))))
+                return types.SimpleNamespace(response=fut)
+
+            async def shutdown(self):
+                pass
+
+        class FakeContext:
+            @staticmethod
+            async def create_server_context(site, bind=None):
+                return Socket()
+
+            @staticmethod
+            async def create_client_context():
+                return Socket()
+
+        pd = ident.pairing_data(hosts=("fd00::1",), port=5683, connection="CoAP")
+        with mock.patch.object(coapc, "Context", FakeContext):
+            pairing = CoAPPairing(_controller(CharacteristicCacheFile(fn)), pd)
+            await pairing.list_accessories_and_characteristics()
+            if not cached:
+                return pairing.accessories
+            return CoAPPairing(_controller(CharacteristicCacheFile(fn)), pd).accessories
+    try:
+        return _run_async(main)
+    finally:
+        if fn.exists():
+            fn.unlink()
+
+
+def build_wire(spec):
+    path = spec["path"]
+    accs = (build_ble if path.startswith("ble") else build_coap)(spec, path.endswith("_cached"))
+    if accs is None:
+        raise LookupError("the pairing holds no accessories after the database was fetched")
+    svc = accs.aid(spec["aid"]).services.iid(spec["siid"])
+    if svc is None:
+        raise LookupError(f"service iid={spec['siid']} sent by the accessory is missing from the model")
+    chars = [svc.get_char_by_iid(ch["iid"]) for ch in spec["chars"]]
+    for ch, hc in zip(spec["chars"], chars):
+        if hc is None:
+            raise LookupError(f"characteristic iid={ch['iid']} type {ch['type']} sent by the accessory is missing from the model")
+    return svc, chars
+
+
+# deterministic part of the wire stream: per format the valid ranges / steps every run declares (negative minima down to -2^31,
+# upper halves of the unsigned formats, ranges entirely below zero, range without step, step without range, fractional steps)
+WIRE_GRID = {
+    "uint8": [(0, 255, 1), (0, 100, 5), (16, 31, OMIT), (128, 255, 7), (OMIT, OMIT, 2), (0, 255, 128)],
+    "uint16": [(0, 65535, 1), (100, 50000, 100), (32768, 65535, 3), (0, 65535, 32768)],
+    "uint32": [(0, 2 ** 32 - 1, 1), (2 ** 31, 2 ** 32 - 1, 2 ** 16), (0, 2 ** 31, 7)],
+    "uint64": [(0, 2 ** 64 - 1, 1), (2 ** 63, 2 ** 64 - 1, 10), (0, 2 ** 63 + 12345, 3)],
+    "int": [(-2 ** 31, 2 ** 31 - 1, 5), (-90, 90, 1), (-100, -10, 3), (-2 ** 31, 2 ** 31 - 1, OMIT), (-2 ** 31 + 1, -1, 7), (0, 100, 1), (-32768, 32767, 10),
+            (OMIT, OMIT, 10), (-1, 2 ** 31 - 1, 2)],
+    "float": [(-100, 100, 0.1), (-0.5, 359.9, 0.5), (7.2, 38, 0.01), (-273.15, 1000000.5, 0.25), (-90, 90, OMIT), (0, 1, 0.3), (-1000000.0, -10.5, 1), (OMIT, OMIT, 0.5)],
+}
+
+
+def wire_range(rng, fmt):
+    """a (min, max, step) declaration that the wire can carry: the valid range has both ends or is absent, every number is a value of the format"""
+    if fmt == "float":
+        for _ in range(50):
+            lo = rng.choice([-100, -0.5, 0, 7.2, 10, 0.1, -90, -273.15, -1e6, -40, -2.5e9, round(rng.uniform(-500, 500), 2)])
+            hi = rng.choice([100, 35, 38, 1000000.5, 359.9, 1, 0, 65535, -0.25, 2.5e9, round(rng.uniform(-500, 500), 2)])
+            if lo <= hi:
+                break
+        else:
+            lo, hi = 0, 100
+        st = rng.choice([OMIT, OMIT, 1, 2, 5, 10, 0.1, 0.5, 0.01, 0.25, 3, 7, 0.3])
+        conv = f32
+    else:
+        a, b = INT_RANGES[fmt]
+        for _ in range(50):
+            lo = rng.choice([a, a, a + 1, 0, 1, 16, -1, -90, -100, -128, -32768, -65536, -2 ** 24, -10 ** 9, a // 2, b // 2 + 1, rng.randint(a, b)])
+            hi = rng.choice([b, b, b - 1, 100, 255, 90, 65535, 2 ** 31 - 1, 2 ** 32 - 1, 0, -1, -50, 10 ** 9, 2 ** 63, b // 2, rng.randint(a, b)])
+            if a <= lo <= hi <= b:
+                break
+        else:
+            lo, hi = a, b
+        st = rng.choice([OMIT, OMIT, 1, 1, 2, 3, 5, 7, 10, 100, 2 ** 16, 2 ** 31 - 1, b // 2 + 1])
+        if st != OMIT and st > b:
+            st = 1
+        conv = int
+    if rng.random() < 0.15:
+        lo = hi = OMIT
+    return tuple(x if x == OMIT else conv(x) for x in (lo, hi, st))
+
+
+def gen_wire_char(rng, cat, fmt, iid, path, taken, params=None, canon=None):
+    canon = canon or pick_type(rng, cat, taken)
+    ch = {"type": spell(rng, canon), "iid": iid, "perms": list(rng.choice(PERMS)), "fmt": fmt, "cat": cat, "min": OMIT, "max": OMIT, "step": OMIT}
+    if fmt in NUM_FORMATS:
+        # (without a presentation format the valid range and step descriptors have no reading: they go with a declared format only)
+        mn, mx, st = params if params is not None else wire_range(rng, fmt)
+        conv = f32 if fmt == "float" else int
+        ch["min"], ch["max"], ch["step"] = (x if x == OMIT else conv(x) for x in (mn, mx, st))
+        a, b = (ch["min"], ch["max"]) if ch["min"] != OMIT else (INT_RANGES.get(fmt, (-1000, 1000)))
+        ch["cur"] = conv(min(max(rng.choice([0, 1, 21, 50, 100, -5, 20.5 if fmt == "float" else 20]), a), b))
+    if path.startswith("coap"):
+        ch["full_type"] = rng.random() < 0.3
+    if rng.random() < 0.3:
+        ch["description"] = "d%d" % iid
+    if rng.random() < 0.3:
+        ch["unit"] = rng.choice(sorted(WIRE_UNIT))
+    return ch
+
+
+def gen_wire_spec(rng, path, cats, fmts, params=None, canon=None):
+    siid = rng.randint(8, 60)
+    stype = rng.choice(["43", "4A", "0000004A", "00000049-0000-1000-8000-0026BB765291", "b7", "8c", rng.choice(VENDOR_SERVICES), rng.choice(VENDOR_SERVICES).lower()])
+    spec = {"path": path, "aid": 1 if path.startswith("ble") else rng.choice([1, 1, 1, 2, 7, 99]), "siid": siid, "stype": stype, "chars": []}
+    if path.startswith("ble"):
+        spec["svc_sig"] = rng.random() < 0.4
+    taken = {"00000023" + BASE_UUID, *WIRE_EXCLUDED}
+    for i, (cat, fmt) in enumerate(zip(cats, fmts)):
+        ch = gen_wire_char(rng, cat, fmt, siid + 1 + i, path, taken, params, canon)
+        taken.add(canon_uuid(ch["type"]))
+        spec["chars"].append(ch)
+    return spec
+
+
+def override_cases():
+    """standard types whose table entry has a non-zero default minimum / maximum, with a wire declaration whose corresponding end is 0
+    (and a step other than the table's): what the accessory declares replaces the default of the type, also when it is zero"""
+    out = []
+    table = _std_table()
+    for canon in sorted(table):
+        e = table[canon]
+        fmt = e.get("format")
+        if canon in WIRE_EXCLUDED or not (fmt in WIRE_INT or fmt == "float"):
+            continue
+        a, b = INT_RANGES.get(fmt, (-10 ** 6, 10 ** 6))
+        tmin, tmax, tstep = e.get("min_value"), e.get("max_value"), e.get("min_step")
+        step = OMIT if not tstep else (tstep * 2 if tstep * 2 <= b else tstep)
+        if tmin:
+            out.append((canon, fmt, (0, tmax if tmax is not None and 0 <= tmax <= b else 100, step)))
+        if tmax:
+            out.append((canon, fmt, (max(a, min(tmin if tmin is not None else 0, -100)), 0, step) if a < 0 else (0, 0, OMIT)))
+    return out
+
+
+def wire_inputs(rng, ch, decl):
+    """inputs beyond those of values_for: inside the declared range wherever it lies, ties of the declared grid far from its origin,
+    and the value the accessory currently reports in several spellings"""
+    fmt, mn, mx, st = decl
+    out = []
+    if fmt not in NUM_FORMATS:
+        return out
+    if mn is not None and mx is not None and mn <= mx:
+        if fmt == "float":
+            out += [rng.uniform(mn, mx), round(rng.uniform(mn, mx), 2), str(round(rng.uniform(mn, mx), 1))]
+        else:
+            a, b = math.ceil(mn), math.floor(mx)
+            if a <= b:
+                out += [rng.randint(a, b), rng.randint(a, b) + 0.5, str(rng.randint(a, b))]
+        if st:
+            off, step, top = Fraction(Decimal(mn)), Fraction(Decimal(st)), Fraction(Decimal(mx))
+            k = rng.randint(0, max(0, math.floor((top - off) / step)))
+            for y in (off + k * step, off + k * step + step / 2, off + k * step + step / 2 - Fraction(1, 1000)):
+                out.append(int(y) if y.denominator == 1 else float(y))
+    if "cur" in ch:
+        cur = ch["cur"]
+        out += [cur, float(cur), str(cur)]
+    return [(v, "wire-" + type(v).__name__) for v in out]
+
+
+def wire_stream(ctx, driver):
+    rng = ctx.rng
+    sinks = Sinks()
+    try:
+        _ble_kit()
+        ble_ok = True
+    except Exception as e:  # noqa: BLE001
+        ble_ok = False
+        ctx.notes.append(f"wire stream: bleak is not importable here ({type(e).__name__}: {e}); the BLE routes were not run")
+    paths = [p for p in WIRE_PATHS if ble_ok or not p.startswith("ble")]
+    # ---- deterministic in its coverage: route x format x the ranges of WIRE_GRID, and the formats without range
+    k = 0
+    for path in paths:
+        for fmt in WIRE_FORMATS + (OMIT,):
+            for params in WIRE_GRID.get(fmt, [None]):
+                k += 1
+                spec = gen_wire_spec(rng, path, [CATS[k % len(CATS)]], [fmt], params)
+                exercise(ctx, rng, spec, sinks, 4, 3)
+    ctx.dist["wire:grid-accessories"] = k
+    # ---- ... and declarations that replace a non-zero default of a standard type by zero
+    cases = override_cases()
+    for path in paths:
+        for canon, fmt, params in (cases if ctx.thorough() else rng.sample(cases, min(len(cases), 6))):
+            spec = gen_wire_spec(rng, path, ["std-meta"], [fmt], params, canon)
+            exercise(ctx, rng, spec, sinks, 3, 1)
+            ctx.dist["wire:default-replaced-accessories"] += 1
+    # ---- random accessories: 1..3 characteristics in one service, random ranges of the format, multi-item updates
+    for _ in range(ctx.budget(260, 6000)):
+        n = rng.choice([1, 2, 2, 3])
+        cats = [rng.choice(CATS) for _ in range(n)]
+        fmts = [rng.choice(WIRE_FORMATS + NUM_FORMATS + ("int", "int", "float", OMIT)) for _ in range(n)]
+        spec = gen_wire_spec(rng, rng.choice(paths), cats, fmts)
+        exercise(ctx, rng, spec, sinks, 4, 3)
+    if sinks.num["int"][0]:
+        ctx.sample(sinks.num["int"][0][len(sinks.num["int"][0]) // 3])
+    sinks.compare(ctx, driver, "wire")
 
 
 def ref_text_valid(fmt, v):
@@ -664,18 +1219,29 @@ def locate(ctx, n0, where):
         x["what"] = where + x["what"]
 
 
+def stream_of(spec):
+    """the stream a spec belongs to (prefix of its signatures, `stream` of its cases)"""
+    return "wire" if spec["path"] in WIRE_PATHS else "typed"
+
+
 def typed_one(ctx, spec, built, ci, entry, key, v, kind, sinks):
     svc, chars = built
     ch = spec["chars"][ci]
-    case = {"stream": "typed", "spec": spec, "char": ci, "entry": entry, "key": key, "value": enc(v)}
+    pre = stream_of(spec)
+    case = {"stream": pre, "spec": spec, "char": ci, "entry": entry, "key": key, "value": enc(v)}
     holder = {}
     n0 = len(ctx.violations)
-    judge_any(ctx, "typed", case, declared(ch), v, kind, lambda: prepare(svc, chars[ci], spec["aid"], ch["iid"], entry, key, v, holder), sinks,
-              tag=("typed", ch["cat"], spec["path"], entry))
-    check_target(ctx, "typed", case, holder, spec["aid"], ch["iid"])
+    decl = declared(ch)
+    judge_any(ctx, pre, case, decl, v, kind, lambda: prepare(svc, chars[ci], spec["aid"], ch["iid"], entry, key, v, holder), sinks,
+              tag=(pre, ch["cat"], spec["path"], entry))
+    check_target(ctx, pre, case, holder, spec["aid"], ch["iid"])
     locate(ctx, n0, f"{ch['cat']} type {ch['type']} built through {spec['path']}, {'Service.build_update' if entry == 'build' else 'check_convert_value'}: ")
-    ctx.dist["typed:path:" + spec["path"]] += 1
-    ctx.dist["typed:type:" + ch["cat"]] += 1
+    ctx.dist[pre + ":path:" + spec["path"]] += 1
+    ctx.dist[pre + ":type:" + ch["cat"]] += 1
+    if pre == "wire":
+        ctx.dist["wire:declares:%s:%s%s" % (ch["fmt"], "range" if ch["min"] != OMIT else "-", "+step" if ch["step"] != OMIT else "")] += 1
+        if decl[0] in NUM_FORMATS and decl[1] is not None and decl[1] < 0:
+            ctx.dist["wire:negative-minimum:" + decl[0]] += 1
 
 
 def convertible_ref(decl, v):
@@ -695,26 +1261,27 @@ def typed_multi(ctx, spec, built, payload, sinks):
     """one build_update call naming several characteristics of the service: every item is prepared against ITS OWN characteristic,
     in the order given; one unconvertible item fails the call with FormatError"""
     svc, chars = built
-    case = {"stream": "typed-multi", "spec": spec, "payload": [[ci, key, enc(v)] for ci, key, v in payload]}
+    pre = stream_of(spec)
+    case = {"stream": pre + "-multi", "spec": spec, "payload": [[ci, key, enc(v)] for ci, key, v in payload]}
     decls = [declared(spec["chars"][ci]) for ci, _, _ in payload]
     refs = [convertible_ref(d, v) for d, (_, _, v) in zip(decls, payload)]
     ctx.evaluations += 1
-    ctx.dist["typed:multi"] += 1
+    ctx.dist[pre + ":multi"] += 1
     try:
         res = svc.build_update({key: v for _, key, v in payload})
         exc = None
     except Exception as e:  # noqa: BLE001
         res, exc = None, e
     if exc is not None and not isinstance(exc, FormatError):
-        ctx.violation("typed/multi/" + type(exc).__name__, f"build_update of {len(payload)} items raised {type(exc).__name__} (not the library's FormatError)", case)
+        ctx.violation(pre + "/multi/" + type(exc).__name__, f"build_update of {len(payload)} items raised {type(exc).__name__} (not the library's FormatError)", case)
         return
     if any(r is False for r in refs):
         if exc is None:
-            ctx.violation("typed/multi/accepted-garbage", f"build_update with an unconvertible item returned {res!r}", case)
+            ctx.violation(pre + "/multi/accepted-garbage", f"build_update with an unconvertible item returned {res!r}", case)
         return
     if exc is not None:
         if all(r is True for r in refs):
-            ctx.violation("typed/multi/rejected-valid", "build_update of convertible items raised FormatError", case)
+            ctx.violation(pre + "/multi/rejected-valid", "build_update of convertible items raised FormatError", case)
         return
     want = [(spec["aid"], spec["chars"][ci]["iid"]) for ci, _, _ in payload]
     try:
@@ -722,12 +1289,12 @@ def typed_multi(ctx, spec, built, payload, sinks):
     except Exception:  # noqa: BLE001
         targets = None
     if targets != want:
-        ctx.violation("typed/multi/build-wrong-target", f"build_update for {want} rendered {res!r}", case)
+        ctx.violation(pre + "/multi/build-wrong-target", f"build_update for {want} rendered {res!r}", case)
         return
     for (ci, key, v), d, item in zip(payload, decls, res):
         if d[0] in NUM_FORMATS or d[0] == "bool":
             ctx.evaluations -= 1  # counted once for the call
-            judge_any(ctx, "typed/multi", case, d, v, "multi", lambda item=item: item[2], sinks, tag=("typed-multi", spec["chars"][ci]["cat"], spec["path"]))
+            judge_any(ctx, pre + "/multi", case, d, v, "multi", lambda item=item: item[2], sinks, tag=(pre + "-multi", spec["chars"][ci]["cat"], spec["path"]))
 
 
 def gen_spec(rng, path, cats, fmts, params=None):
@@ -748,18 +1315,21 @@ def safe_build(ctx, pre, spec):
     except Exception as e:  # noqa: BLE001
         ctx.evaluations += 1
         ctx.violation(pre + "/construct/" + type(e).__name__, f"constructing a characteristic from a well-formed declaration through {spec['path']} raised {type(e).__name__}: {e}",
-                      {"stream": "typed", "spec": spec, "char": 0, "entry": "check", "key": spec["chars"][0]["type"], "value": "0"})
+                      {"stream": stream_of(spec), "spec": spec, "char": 0, "entry": "check", "key": spec["chars"][0]["type"], "value": "0"})
         return None
 
 
 def exercise(ctx, rng, spec, sinks, n_good, n_bad):
-    built = safe_build(ctx, "typed", spec)
+    built = safe_build(ctx, stream_of(spec), spec)
     if built is None:
         return
     for ci, ch in enumerate(spec["chars"]):
         decl = declared(ch)
         canon = canon_uuid(ch["type"])
-        for j, (v, kind) in enumerate(values_for(rng, decl, n_good, n_bad)):
+        inputs = values_for(rng, decl, n_good, n_bad)
+        if spec["path"] in WIRE_PATHS:
+            inputs += wire_inputs(rng, ch, decl)
+        for j, (v, kind) in enumerate(inputs):
             entry = "check" if (spec["path"] == "ctor" or (j + ci) % 2 == 0) else "build"
             typed_one(ctx, spec, built, ci, entry, spell(rng, canon), v, kind, sinks)
     if len(spec["chars"]) > 1 and spec["path"] != "ctor":
@@ -920,12 +1490,12 @@ def kinds_stream(ctx, driver):
 def replay_kinds(ctx, cc):
     sinks = Sinks()
     stream = cc["stream"]
-    if stream == "typed":
-        built = safe_build(ctx, "typed", cc["spec"])
+    if stream in ("typed", "wire"):
+        built = safe_build(ctx, stream, cc["spec"])
         if built is not None:
             typed_one(ctx, cc["spec"], built, cc["char"], cc["entry"], cc["key"], dec(cc["value"]), "replay", sinks)
-    elif stream == "typed-multi":
-        built = safe_build(ctx, "typed", cc["spec"])
+    elif stream in ("typed-multi", "wire-multi"):
+        built = safe_build(ctx, stream.split("-")[0], cc["spec"])
         if built is not None:
             typed_multi(ctx, cc["spec"], built, [(ci, key, dec(v)) for ci, key, v in cc["payload"]], sinks)
     elif stream == "fixture":
@@ -943,7 +1513,10 @@ def replay_kinds(ctx, cc):
 
 def replay(ctx, driver, cc):
     stream = cc.get("stream")
-    if stream in ("typed", "typed-multi", "fixture", "required"):
+    if stream == "ble-meta":
+        from harness.c14_blemeta import replay_blemeta
+        return replay_blemeta(ctx, driver, cc)
+    if stream in ("typed", "typed-multi", "wire", "wire-multi", "fixture", "required"):
         sub = Ctx(ctx.pid, ctx.tier, ctx.seed)
         try:
             replay_kinds(sub, cc)
